@@ -88,10 +88,15 @@ fn observe(len: usize, est: usize, dict: usize, script: &str, kind: u64, seed: u
             let _ = tx.send(r);
         })
         .expect("spawn");
-    match rx.recv_timeout(deadline) {
-        Ok(Ok(n)) => Obs::Ok(n),
-        Ok(Err(p)) => Obs::Panic(p),
-        Err(_) => Obs::Timeout,
+    // wait in slices and keep the process-wide watchdog informed: this engine has its own (longer) deadline
+    let t0 = std::time::Instant::now();
+    loop {
+        match rx.recv_timeout(Duration::from_secs(2)) {
+            Ok(Ok(n)) => return Obs::Ok(n),
+            Ok(Err(p)) => return Obs::Panic(p),
+            Err(mpsc::RecvTimeoutError::Timeout) if t0.elapsed() < deadline => crate::util::watchdog::beat(None),
+            Err(_) => return Obs::Timeout,
+        }
     }
 }
 
@@ -126,6 +131,14 @@ pub fn run(opts: &Opts) -> Run {
         (20000, 20000, 64, "*10"),
         (20000, 20000, 100000, "-"),
         (40, 40, 64, "8,8,*100"),
+        // the large-epoch branch of compute_epoch_info (epoch_size >= 10 000 with two or more epochs: declared
+        // source size >= 320 000 and dict_size >= 4096), with k-mer counts that are / are not multiples of the
+        // number of epochs; the declared size is what counts, the source itself may be short
+        (20000, 480_016, 4096, "-"),
+        (20000, 480_000, 4096, "-"),
+        (20000, 400_000, 6144, "-"),
+        (1000, 1_000_001, 8192, "*100"),
+        (3000, 655_360 + 16, 10_000, "-"),
     ] {
         grid.push((l, e, d, s.to_string(), 0));
     }
